@@ -44,6 +44,9 @@
 #define E_PAYLOAD2 18
 #define E_COPY_RNG 19
 #define E_COPY_PLANS 21
+#ifndef REPLAY_MAX
+#define REPLAY_MAX 15                   /* longest history handed to replayTransitions() */
+#endif
 #define M_SELECT 1
 #define M_ENTRY_GUARD 4
 #define M_ENTER 5
@@ -244,7 +247,11 @@ void vf_log(uint32_t k, uint32_t a, uint32_t b, uint32_t c) {
   if (k == 0) { if (lg_fresh) lg_extra = 1; lg_fresh = 1; lg_s = (int)a; lg_m = (int)b; }
   else if (k == 1) { if (!ex_tr || (int)a != ex_tr_o || (int)b != ex_tr_t || (int)c != ex_tr_d) lg_wrong = 1; ex_tr = 0; }
   else if (k == 4) { if (!ex_cancel || (int)a != ex_cancel_o) lg_wrong = 1; ex_cancel = 0; }
-  else if (k == 5) { if (!ex_sel || (int)a != ex_sel_s || (int)b != ex_sel_v) lg_wrong = 1; ex_sel = 0; }
+  else if (k == 5) {
+    /* the anonymous head of a headless region has no user select(): the library's default (first sub-state) is resolved
+       and reported without a preceding callback */
+    if (a < NS && st_headless[a] && !ex_sel) { if (b != 0) lg_wrong = 1; }
+    else { if (!ex_sel || (int)a != ex_sel_s || (int)b != ex_sel_v) lg_wrong = 1; ex_sel = 0; } }
 }
 static void lg_method(int s, int m) {
   lg_flush();
@@ -482,6 +489,10 @@ static void ref_apply(int k, int d) {
   /* statement silent (don't-care): a region destination that already carries a pending target from an EARLIER request
      of the same batch may keep it or be re-resolved by this request */
   if (st_kind[d] == 1 && T[st_compo[d]] != INVALID) free_subtree(d);
+  /* ... the same for regions nested inside a region destination (e.g. select<R>() followed by restart<Or>() with R below
+     the orthogonal region Or): all destinations are active either way, the statement does not say whether the nested
+     region keeps the sub-state the earlier request chose or is re-resolved by the later kind */
+  if (st_kind[d] != 0) for (int y = d + 1; y < d + st_size[d]; y++) if (st_kind[y] == 1 && T[st_compo[y]] != INVALID) free_subtree(y);
   /* which orthogonal ancestors are NOT active in the pending configuration before this request (they get entered) */
   _Bool o_entered[MAXDEPTH + 2]; int x = d;
   for (int i = 0; i <= MAXDEPTH; i++) { int p = st_parent[x]; o_entered[i] = 0; if (p < 0) break; if (st_kind[p] == 2) o_entered[i] = !pend_active(p); x = p; }
@@ -925,7 +936,7 @@ int main(void) {
     unsigned k0 = nondet_uchar();
     unsigned d1 = nondet_uchar();
     unsigned k1 = nondet_uchar();
-    __CPROVER_assume(n <= 15 && d0 < NS && d1 < NS && k0 >= 1 && k0 <= 7 && k1 >= 1 && k1 <= 7 && ((EXT_KINDS >> k0) & 1) && ((EXT_KINDS >> k1) & 1));
+    __CPROVER_assume(n <= REPLAY_MAX && d0 < NS && d1 < NS && k0 >= 1 && k0 <= 7 && k1 >= 1 && k1 <= 7 && ((EXT_KINDS >> k0) & 1) && ((EXT_KINDS >> k1) & 1));
     cancel_ok = 0; budget = 0;
     vf_replay_many(I, n, d0, k0 - 1, d1, k1 - 1);           /* histories longer than the history capacity included */
   }
